@@ -2,6 +2,7 @@
 // its behalf"): goroutine accounting, weak-pointer reachability, context cancellation and
 // N-vs-2N growth over create/(nest)/use/close cycles, plus the fault enumeration of failing
 // scope initializers. See /verif/DESIGN.md §3 C14 and §7.9.
+
 package leak
 
 import (
@@ -19,7 +20,7 @@ func init() {
 		ID:    "C14",
 		Level: "exploration",
 		Race:  false,
-		Rule: "cycles case = (host: provider | long-lived scope | long-lived nested scope) x (caller context: Background | nil | one long-lived never-cancelled cancellable | non-std context type | fresh cancellable per cycle) x (scope-tree shape as parent vector, per-child context kind) x (close mode: leaf-first | root-only with open children | creation-order incl. repeated Close | random order | cancel caller context | cancel+Close | left open until provider.Close | closed with handles held) x initializer set x resolution mask, run for N and 2N cycles (quick N=200/400, thorough N=5000/10000; left-open mode capped at 2000/4000 scopes trees because every open scope owns a goroutine); " +
+		Rule: "cycles case = (host: provider | long-lived scope | long-lived nested scope) x (caller context: Background | nil | one long-lived never-cancelled cancellable | non-std context type | fresh cancellable per cycle) x (scope-tree shape as parent vector, per-child context kind) x (close mode: leaf-first | root-only with open children | creation-order incl. repeated Close | random order | cancel caller context | cancel+Close | left open until provider.Close | closed with handles held) x initializer set x resolution mask, run for N and 2N cycles (quick N=200/400, thorough N=5000/10000; the left-open mode is capped at N=2000, 1000 for trees of more than 4 scopes, because every open scope owns a goroutine); " +
 			"fault case = (Build | provider.CreateScope | scope.CreateScope on child | on grandchild) x caller context x initializer order x failing position 1..m x (error | panic | dependency constructor error | dependency constructor panic) x 1 or several consecutive failing creations, embedded between fault-free cycles. " +
 			"Non-trivial: at least one scope was created and then closed, or at least one creation failed with the planned fault actually fired; distinct = distinct canonical case descriptions.",
 		Shards:        func(tier string) int { return map[string]int{"quick": 8, "thorough": 16}[tier] },
